@@ -108,7 +108,14 @@ def norm_event(raw, prev_snapq_len):
                    "pending": side.get("pending", 0), "role": side.get("role", "-")}
     out["repl_lines"] = side.get("repl", [])
     out["dbs"] = norm_dump(raw.get("dump", {}))
-    out["putfail"] = any(r.get("failed") and r.get("m") == "PUT" for r in raw.get("extra", {}).get("requests", []))
+    # a PutObject *operation* failed: every SDK attempt of it was refused (a refused attempt that the
+    # SDK retried successfully is invisible to the node)
+    puts = [r for r in raw.get("extra", {}).get("requests", []) if r.get("m") == "PUT"]
+    ops = {}
+    for k, r in enumerate(puts):
+        ops.setdefault(r.get("op", -k - 1), []).append(bool(r.get("failed")))
+    out["putfail"] = any(all(v) for v in ops.values())
+    out["putretried"] = any(any(v) and not all(v) for v in ops.values())
     return out, qlen
 
 
